@@ -138,12 +138,27 @@ def serial_ok(progs, rec, perm):
     return state == rec["final"]
 
 
-def oracle(level_name, progs, rec):
+def oracle(level_name, progs, rec, store_tag=None):
     """Returns [(fingerprint-tail, description)]."""
     out = []
     if not rec["done"]:
         return out
     committed = [i for i in range(len(progs)) if rec["commit"].get(i)]
+    # first sentence of the statement: a read returns the value of SOME write to that key (or the
+    # initial value).  Anything else is a defect of the store under the manager, not an isolation
+    # anomaly: report it under its own clause and do not judge isolation on garbage reads.
+    written = {k: {INIT[k]} for k in KEYS}
+    for i, p in enumerate(progs):
+        for j, (kd, k) in enumerate(p):
+            if kd == "w":
+                written[k].add(write_val(i, j))
+    for i in range(len(progs)):
+        for (_j, k, v) in rec["reads"][i]:
+            if v not in written[k]:
+                out.append((f"txn/{level_name}/read-returned-unwritten-value/{store_tag or 'store'}",
+                            f"T{i} read {k!r} = {v!r}, which no transaction wrote and is not the initial "
+                            f"value {INIT[k]!r}"))
+                return out
     if level_name == "SERIALIZABLE":
         if not any(serial_ok(progs, rec, perm) for perm in itertools.permutations(committed)):
             ro = all(all(kd == "r" for kd, _ in progs[i]) for i in committed)
@@ -234,7 +249,7 @@ def work(job):
             st["aborts"] += sum(1 for v in rec["commit"].values() if not v)
             st["outcomes"].add(digest((sorted(rec["commit"].items()), [[(k, v) for _j, k, v in r] for r in rec["reads"]],
                                        sorted(rec["final"].items()))))
-            for fp, desc in oracle(level_name, progs, rec):
+            for fp, desc in oracle(level_name, progs, rec, store_tag):
                 if fp not in st["viol"]:
                     st["viol"][fp] = (desc + f"  [log: {rec['log']}]", _rep(store_tag, level_name, progs, order))
             if not st["samples"] and st["exec"] % 3001 == 11:
@@ -342,7 +357,7 @@ def work_overlap(job):
                                        [[(k, v) for _j, k, v in r] for r in rec["reads"]],
                                        sorted(rec["final"].items()))))
             if level_name != "READ_COMMITTED":
-                for fp, desc in oracle(level_name, progs, rec):
+                for fp, desc in oracle(level_name, progs, rec, store_tag):
                     if fp not in st["viol"]:
                         st["viol"][fp] = (desc + f"  [log: {rec['log']}]",
                                           _rep_ov(store_tag, level_name, progs, offsets))
@@ -373,7 +388,7 @@ def replay_txn_overlap(rep):
     for (i, kd, k, v) in rec["log"]:
         print(f"    T{i} {kd} {k if k else ''} -> {v!r}")
     print(f"  commit results {rec['commit']} commit order {rec['commit_order']} final {rec['final']}")
-    v = oracle(rep["level"], progs, rec)
+    v = oracle(rep["level"], progs, rec, rep["store"])
     for fp, desc in v:
         print(f"  !! {fp}: {desc}")
     return 1 if v else 0
@@ -398,7 +413,7 @@ def replay_txn(rep):
     for (i, kd, k, v) in rec["log"]:
         print(f"    T{i} {kd} {k if k else ''} -> {v!r}")
     print(f"  commit results {rec['commit']} commit order {rec['commit_order']} final {rec['final']}")
-    v = oracle(rep["level"], progs, rec)
+    v = oracle(rep["level"], progs, rec, rep["store"])
     for fp, desc in v:
         print(f"  !! {fp}: {desc}")
     return 1 if v else 0
